@@ -292,9 +292,9 @@ func (g *G) genAtt(v view) Op {
 	r := g.r
 	val := uint64(r.Intn(g.nval + 1))
 	root, slot := g.pickRef(v)
-	if r.Chance(35) && len(v.refs) > 0 {
-		// prefer recent nodes: later target epochs
-		x := v.refs[len(v.refs)-1-r.Intn(min(len(v.refs), 4))]
+	if r.Chance(45) && len(v.refs) > 0 {
+		// prefer recent nodes: later target epochs, so that votes move
+		x := v.refs[len(v.refs)-1-r.Intn(min(len(v.refs), 6))]
 		root, slot = CounterOf(x.Root), uint64(x.Slot)
 	}
 	return Op{K: "Att", A: []uint64{val, root, slot}}
@@ -530,6 +530,9 @@ func (g *G) Next(in *inst, step int) (Op, bool) {
 		// first build a tree that spans a few epochs
 		wBlock, wSlot, wAtt, wUpd, wPin = 70, 12, 16, 2, 0
 	}
+	if g.mode == "C09" {
+		wAtt += 25
+	}
 	tot := wBlock + wSlot + wAtt + wUpd + wPin
 	x := r.Intn(tot)
 	var o Op
@@ -553,9 +556,13 @@ func (g *G) Next(in *inst, step int) (Op, bool) {
 	case "C11":
 		nq = 2 + r.Intn(2)
 	case "C09":
-		if r.Chance(70) {
+		if r.Chance(85) || o.K == "Att" || o.K == "Update" {
 			g.queue = append(g.queue, Op{K: "Head"})
 		}
+		if r.Chance(50) {
+			g.queue = append(g.queue, g.genQuery(v, "FindHead"))
+		}
+		nq = r.Intn(2)
 	case "C10":
 		if o.K == "Update" {
 			nq = 3 + r.Intn(2)
